@@ -806,11 +806,18 @@ func (l *Loop) blockList() []*ssa.BasicBlock {
 }
 
 // lowerBound computes a conservative integer lower bound of v (ok=false if none).
-func lowerBound(v ssa.Value) (int64, bool) {
+func lowerBound(v ssa.Value) (int64, bool) { return lowerBoundWith(v, nil) }
+
+// lowerBoundWith is lowerBound with known lower bounds for some values
+// (e.g. parameters bound to constants at every call site).
+func lowerBoundWith(v ssa.Value, known map[ssa.Value]int64) (int64, bool) {
 	seen := map[ssa.Value]bool{}
 	var lb func(v ssa.Value) (int64, bool)
 	lb = func(v ssa.Value) (int64, bool) {
 		if k, ok := constInt(v); ok {
+			return k, true
+		}
+		if k, ok := known[v]; ok {
 			return k, true
 		}
 		if seen[v] {
@@ -855,10 +862,40 @@ func lowerBound(v ssa.Value) (int64, bool) {
 			if b, ok := x.Call.Value.(*ssa.Builtin); ok && b.Name() == "len" {
 				return 0, true
 			}
+			if f := x.Call.StaticCallee(); f != nil && f.Blocks != nil && f.Signature.Results().Len() == 1 {
+				return retLowerBound(f, 0)
+			}
+		case *ssa.Extract:
+			if call, ok := x.Tuple.(*ssa.Call); ok {
+				if f := call.Call.StaticCallee(); f != nil && f.Blocks != nil {
+					return retLowerBound(f, x.Index)
+				}
+			}
 		}
 		return 0, false
 	}
 	return lb(v)
+}
+
+// retLowerBound: minimum over all returns of result idx, when each is a constant.
+func retLowerBound(f *ssa.Function, idx int) (int64, bool) {
+	var best int64
+	have := false
+	for _, ret := range returnsOf(f) {
+		if idx >= len(ret.Results) {
+			return 0, false
+		}
+		for _, v := range possibleValues(ret.Results[idx]) {
+			k, ok := constInt(v)
+			if !ok {
+				return 0, false
+			}
+			if !have || k < best {
+				best, have = k, true
+			}
+		}
+	}
+	return best, have
 }
 
 // derivesFromPhi: v is ph or a chain of φ/+const leading back to ph.
